@@ -29,7 +29,7 @@ PLANS = {
     },
     "C02": {
         "quick": [("c02q", inst(LeafFam="<-C02LeavesQ", MaxLeaves=1, MaxCalls=5, Vias="<-cViaVerify"), {"clones": 2}, None)],
-        "thorough": [("c02t", inst(LeafFam="<-C02LeavesT", MaxLeaves=1, MaxCalls=7, Vias="<-cViaVerify"), {"clones": 2}, None)],
+        "thorough": [("c02t", inst(LeafFam="<-C02LeavesT", MaxLeaves=1, MaxCalls=6, Vias="<-cViaVerify"), {"clones": 2}, None)],
     },
     "C03": {
         "quick": [("c03q", inst(LeafFam="<-C03LeavesQ", MaxLeaves=2, MaxCalls=4, StrictFam="<-cStrictOnly"),
